@@ -692,7 +692,11 @@ def run(ctx):
         rep = {"kind": "parser", "case": {k: c[k] for k in ("G", "t", "prim", "nsim", "names")},
                "vals": {k: (v.hex() if isinstance(v, float) else v) for k, v in c["vals"].items()},
                "c": str(c_out[i]), "python": str(py_out[i])}
-        if hasnan:
+        hasinf = any(isinstance(x, float) and abs(x) == float("inf") for x in c["vals"].values())
+        if hasinf and not NONFINITE_REJECTED:
+            n_nan += 1
+            found.setdefault("silent-nan:infinite-argument", (rep, "an infinite argument is accepted (not rejected like NaN) and the two front ends then build different / NaN particles"))
+        elif hasnan:
             n_nan += 1
             found.setdefault("parser:nan-valued-argument", (rep, "C and Python front ends treat a NaN-valued argument differently (both must reject it with error 16)"))
         else:
